@@ -133,6 +133,13 @@ class Spec:
             op = "localEnter"
         elif op == "childLocalRe":
             op = "childLocal"
+        if op == "pushChildLast":
+            # the caller's last handle of the set is moved into the call: pushed as by `pushChild`, the variable is gone
+            self.apply("%d pushChild %s %s" % (t, a[0], a[1]), pos)
+            if a[0] in self.spans:
+                self.lspans.pop(a[1], None)
+                self.lorphans.pop(a[1], None)
+            return
         if op == "lAddEventPre":
             op, a = "lAddEvent", a[1:]
         elif op == "addEventPre":
@@ -742,7 +749,8 @@ class Gen:
         self.emit(t, "lAddEvent %s %s" % (hx(self.name("e")), "none" if props is None else wprops(props)))
 
     def op_push_child(self, t, v, x):
-        self.emit(t, "pushChild %s %s" % (v, x))
+        last = self.k.get("move_sets") and self.r.chance(1, 3)
+        self.emit(t, "pushChild%s %s %s" % ("Last" if last else "", v, x))
 
     def op_to_records(self, t, x):
         self.emit(t, "toRecords %s %x %x" % (x, 1 + self.r.below(5), self.r.below(50)))
